@@ -270,7 +270,7 @@ func confirmCrash(self, prop, tier string, idx int64, dir string, shard int) (*C
 	bad := 0
 	for k := 0; k < 5; k++ {
 		out := filepath.Join(dir, fmt.Sprintf("one-%d-%d-%d", shard, idx, k))
-		cmd := exec.Command("/bin/bash", "-c", fmt.Sprintf("ulimit -v %d; exec timeout 200 %q one -prop %s -tier %s -index %d -out %q",
+		cmd := exec.Command("/bin/bash", "-c", fmt.Sprintf("ulimit -v %d; exec timeout 1800 %q one -prop %s -tier %s -index %d -out %q",
 			envInt("VERIF_ULIMIT_KB", 12*1024*1024), self, prop, tier, idx, out))
 		err := cmd.Run()
 		b := mustRead(out)
